@@ -13,7 +13,7 @@ from vf.core import rows_with_pos, scaffold_len
 from vf.gen import asm as gasm
 from vf.gen import pv as gpv
 
-NAMETAGS = ["X", "Y", "Z", "W", "B1", "B2", "U", "V", "I", "II", "III"]
+NAMETAGS = ["X", "Y", "Z", "W", "B1", "B2", "B10", "A12", "U", "V", "I", "II", "III"]
 
 
 def margin(t):
@@ -54,7 +54,8 @@ def _emit(rng, design_scaffolds, target_mode):
             tags += {"unloc": ["Unloc"], "htig": ["Haplotig"], "cont": ["Contaminant"], "fdup": ["FalseDuplicate"]}.get(pc["kind"], [])
             if target_mode and d["target"]:
                 tags.append("Target")
-            if target_mode and seen_target and not d["target"]:
+            if target_mode and seen_target and not d["target"] and pc["kind"] not in ("htig", "fdup"):
+                # (an explicit Haplotig / FalseDuplicate tag still names its own destination)
                 pc["expect"] = "Contaminant"
             for x in d.get("row_tags", {}).get(j, []):
                 tags.append(x)
@@ -101,11 +102,11 @@ def gen_single(rng, t, inp, vanishing=False):
             if len(grp) > 1:
                 if r < 0.25:
                     pc["kind"] = "unloc"
-                elif r < 0.33 and (has_target or not target_mode):
+                elif r < 0.33:
                     pc["kind"], pc["expect"] = "htig", "Haplotig"
                 elif r < 0.41:
                     pc["kind"], pc["expect"] = "cont", "Contaminant"
-                elif r < 0.47 and (has_target or not target_mode):
+                elif r < 0.47:
                     pc["kind"], pc["expect"] = "fdup", "FalseDuplicate"
             if pc["kind"] == "main":
                 n_main += 1
@@ -139,7 +140,7 @@ def gen_single(rng, t, inp, vanishing=False):
         for pc in grp:
             pc["kind"], pc["expect"] = "unpainted", None
             r = rng.random()
-            if k == 1 and (has_target or not target_mode):
+            if k == 1:
                 if r < 0.12:
                     pc["kind"], pc["expect"] = "htig", "Haplotig"
                 elif r < 0.18:
